@@ -2,20 +2,27 @@
 
 Ties (model evaluated by vm_compute inside coqc, implementation = the real code of $AIU_REPO):
   stage   PrepQueue.run_val  vs  the real queueing_counter + QueueingCounterContext (fresh context, every
-          event through the callback, then drain()): exhaustive start-sorted families of Prep intervals on a
-          small integer grid x keep_prep, random mixed multi-pid streams, out-of-domain streams (unsorted,
-          empty intervals, missing dur, unknown job), corpus.
-  uq      PrepQueue.uq_val   vs  QueueingCounterContext.update_queues on arbitrary stored lists.
+          event through the callback, then drain()), in BOTH modes of the context: sorted_input=True (default
+          constructor; what the default pipeline registers) and sorted_input=False ("hold" mode; what acelyzer
+          registers under -M): exhaustive start-sorted families of Prep intervals on a small integer grid x
+          keep_prep (default mode), exhaustive ANY-order families (hold mode), random mixed multi-pid streams
+          in both modes, unsorted streams (in the property's domain in hold mode, tie-only in the default mode),
+          streams that make the stage raise (missing dur, unknown job), corpus.
+  uq      PrepQueue.uq_val   vs  QueueingCounterContext.update_queues on arbitrary stored lists, both modes.
   names   PrepQueue.name_val vs  PipelineContextTool.is_category(ev, "acc_compute_prep") on adversarial names,
           and the dialect entries themselves.
   e2e     PrepQueue.run_val  vs  the stream that enters / leaves the queueing_counter stage inside a real
-          Acelyzer run (recorded by a wrapper with the same __name__), with and without --keep_prep.
+          Acelyzer run (recorded by a wrapper with the same __name__), with and without --keep_prep, with and
+          without -M (rank files are shuffled; the model is evaluated in the mode the options call for:
+          -M -> hold, otherwise default - not in the mode the run happened to construct).
 Oracle (independent, brute force): per pid, on what the stage emits and on the final <output>.json:
   sample times strictly increasing, every sample value = #{Prep slices with start <= t < end}, a sample at every
   instant where that number changes, series ends at 0, no samples without Prep slices; Prep slices absent from
   the output iff not keep_prep, every other event passed through unchanged, once, in order.
 Empty Prep intervals (dur <= 0: never in flight) are an ordinary part of every stream: since the fix of the
 zero-duration defect found by this check, create_counter ignores them (C13_empty_interval_ignored).
+-M / --no_mp_sync runs are an ordinary part of the domain since the fix of the second defect found by this check
+(58e7814: without the sort in front of it the stage must not hand samples out early): C13_counter_correct_any_order.
 """
 import contextlib
 import copy
@@ -35,7 +42,8 @@ from common import coqrun, enc
 
 ID = "C13"
 PROP_FILE = "props/C13.v"
-THEOREMS = ["C13_counter_correct", "C13_prep_removed_iff_not_keep", "C13_queue_step_denotation",
+THEOREMS = ["C13_counter_correct", "C13_counter_correct_any_order", "C13_hold_callbacks_silent",
+            "C13_prep_removed_iff_not_keep", "C13_queue_step_denotation",
             "C13_sorted_by_ts_suffices", "C13_empty_interval_ignored"]
 ALLOWED_AXIOMS = []
 TRUSTED = [
@@ -46,31 +54,45 @@ TRUSTED = [
     "(same __name__, calls the real function looked up at call time)",
 ]
 ASSUMPTIONS = [
-    "per pid, Prep slices reach queueing_counter in non-decreasing order of ts (delivered by "
-    "MpSyncTightContext.drain's sort; checked on every end-to-end run by the oracle; -M/--skip_mpsync is outside "
-    "the property's domain)",
+    "default pipeline (no -M): per pid, Prep slices reach queueing_counter in non-decreasing order of ts (delivered "
+    "by MpSyncTightContext.drain's sort; checked on every end-to-end run without -M by the oracle). Under "
+    "-M/--no_mp_sync that stage is absent, acelyzer builds the context with sorted_input=False (hold mode: nothing is "
+    "emitted before drain) and C13_counter_correct_any_order applies: no hypothesis on the arrival order. A custom -P "
+    "profile that switches mp_sync_tight_v1 off WITHOUT -M stays outside the property's domain (the stage would run "
+    "in the default mode on unsorted input)",
     "the prep_queue counter is enabled (default -C list) and the event's job is known to GlobalIngestData",
 ]
 MANIFEST = {
     "text": "Proof. Coq theorems over an executable model of QueueingCounterContext.update_queues/create_counter/"
             "drain and queueing_counter (per-pid breakpoint lists, keep_prep), for arbitrary event streams of any "
-            "length over any number of pids (no bound): if per pid the Prep slices arrive start-sorted (no "
+            "length over any number of pids (no bound), in both modes of the context (sorted_input): default mode - if "
+            "per pid the Prep slices arrive start-sorted (no "
             "hypothesis on durations: a slice with end <= start counts nowhere and, by create_counter's guard, "
             "leaves no trace), then per pid the emitted samples have strictly increasing times, each value equals "
             "#{start <= t < end}, the denoted step function equals that number at EVERY time, every start and end "
-            "is a sample time, the series ends at 0, pids without Prep get no sample (C13_counter_correct); the "
+            "is a sample time, the series ends at 0, pids without Prep get no sample (C13_counter_correct); hold mode "
+            "(sorted_input=False, what acelyzer registers under -M) - the same conclusions for ANY arrival order, no "
+            "sortedness hypothesis (C13_counter_correct_any_order), and the callbacks emit no sample "
+            "(C13_hold_callbacks_silent); in both modes the "
             "events passed through are exactly the input minus Prep slices unless keep_prep "
             "(C13_prep_removed_iff_not_keep). The model is tied to the code on every run by correspondence: the "
-            "real stage on all start-sorted families of <= 4 intervals on the integer grid 0..6 (thorough: <= 5 on "
-            "0..6 and <= 4 on 0..7, plus two-rank merges) x keep_prep, random multi-pid streams, out-of-domain "
-            "streams, update_queues on arbitrary lists, the Prep name test, and the stage as it runs inside real "
-            "Acelyzer runs with/without --keep_prep (stage input/output recorded in the run); an independent "
-            "brute-force oracle checks the property on the stage output (also on an off-grid decimal stream) and on "
-            "the exported JSON of in-process and command-line runs.",
+            "real stage in default mode on all start-sorted families of <= 4 intervals on the integer grid 0..6 "
+            "(thorough: <= 5 on 0..6 and <= 4 on 0..7, plus two-rank merges) x keep_prep, in hold mode on ALL "
+            "sequences in any order of <= 3 intervals on 0..5 and <= 4 on 0..3 (thorough: <= 4 on 0..5, <= 5 on 0..3), "
+            "random multi-pid streams sorted and unsorted in both modes, streams that raise, update_queues on "
+            "arbitrary lists in both modes, the Prep name test, and the stage as it runs inside real "
+            "Acelyzer runs with/without --keep_prep and with/without -M on shuffled rank files (stage input/output "
+            "recorded in the run; the model runs in the mode the options call for); an independent "
+            "brute-force oracle checks the property on the stage output (also on an off-grid decimal stream; unsorted "
+            "streams are in-domain in hold mode) and on the exported JSON of in-process and command-line runs, -M "
+            "runs included.",
     "note": "Trusted: Coq kernel + vm_compute; hand-written model PrepQueue.v tied by differential testing only; "
             "floats on the exact grid. The check found that a Prep slice with dur = 0 broke the property (two samples "
             "at one time, exported series ending at 1); fixed in /repo (create_counter ignores end <= start), the "
-            "model follows the fixed code and seeded/revert_fix_C13c re-introduces the defect. Print Assumptions: "
+            "model follows the fixed code and seeded/revert_fix_C13c re-introduces the defect. It then found that under -M "
+            "(no sort in front of the stage) a later-listed Prep that starts earlier was miscounted; fixed in /repo "
+            "(58e7814: sorted_input=False holds all samples until drain), the model has the mode, the any-order theorem "
+            "covers it and seeded/revert_fix_C13m re-introduces the defect. Print Assumptions: "
             "closed under the global context.",
     "technique": "Coq proof (invariant over the streaming breakpoint list, induction over the event stream) + "
                  "vm_compute correspondence against the real stage and real end-to-end runs + brute-force oracle",
@@ -158,7 +180,13 @@ def canon_out(o, ids, snaps):
     return ["?", repr(o)[:80]]
 
 
-def run_stage_impl(keep, spec):
+def new_ctx(si):
+    """si=True: the default constructor (must mean sorted input); si=False: hold mode, as acelyzer asks for under -M"""
+    import aiu_trace_analyzer.pipeline.cmpt_collection as cc
+    return cc.QueueingCounterContext() if si else cc.QueueingCounterContext(sorted_input=False)
+
+
+def run_stage_impl(si, keep, spec):
     """the real queueing_counter on a fresh QueueingCounterContext: [[outputs per event], drain outputs]"""
     import aiu_trace_analyzer.pipeline.cmpt_collection as cc
     ensure_jobs()
@@ -167,7 +195,7 @@ def run_stage_impl(keep, spec):
     ids = {id(e): i for i, e in enumerate(evs)}
     try:
         with quiet():
-            ctx = cc.QueueingCounterContext()
+            ctx = new_ctx(si)
             per = []
             for e in evs:
                 outs = cc.queueing_counter(e, ctx, {"keep_prep": keep})
@@ -178,11 +206,10 @@ def run_stage_impl(keep, spec):
     return [per, dr]
 
 
-def run_uq_impl(s, e, q):
-    import aiu_trace_analyzer.pipeline.cmpt_collection as cc
+def run_uq_impl(si, s, e, q):
     try:
         with quiet():
-            ctx = cc.QueueingCounterContext()
+            ctx = new_ctx(si)
             ctx.queues[0] = [tuple(x) for x in q]
             rd, nq = ctx.update_queues(s, e, 0)
         return [[list(x) for x in rd], [list(x) for x in nq]]
@@ -279,7 +306,8 @@ def run_e2e_impl(sc, keep, work):
         event_pipe.queueing_counter = queueing_counter
         event_pipe.QueueingCounterContext = RecCtx
         with quiet():
-            argv = ["-i", ",".join(files), "-o", outp, "--freq", str(int(FREQ))] + (["--keep_prep"] if keep else [])
+            argv = (["-i", ",".join(files), "-o", outp, "--freq", str(int(FREQ))] + (["--keep_prep"] if keep else [])
+                    + list(sc.get("opts", [])))
             rc = Acelyzer(argv).run()
         if rc != 0:
             err = f"rc={rc}"
@@ -327,7 +355,8 @@ def run_cli(sc, keep, work):
     outp = os.path.join(d, "out.json")
     env = dict(os.environ, PYTHONPATH=os.path.join(REPO, "src"), PYTHONHASHSEED="0")
     r = subprocess.run([PY, "-m", "acelyzer.acelyzer", "-i", ",".join(files), "-o", outp, "--freq", str(int(FREQ))]
-                       + (["--keep_prep"] if keep else []), cwd=d, env=env, stdout=subprocess.PIPE,
+                       + (["--keep_prep"] if keep else []) + list(sc.get("opts", [])), cwd=d, env=env,
+                       stdout=subprocess.PIPE,
                        stderr=subprocess.STDOUT, text=True, timeout=120)
     try:
         return r.returncode, json.load(open(outp))["traceEvents"]
@@ -384,8 +413,9 @@ def check_series(ivs, samples):
     return bad
 
 
-def in_domain(spec):
-    """hypotheses of the property: no event that makes the stage raise, per pid Prep starts non-decreasing
+def in_domain(si, spec):
+    """hypotheses of the property: no event that makes the stage raise and, in the default mode only (si), per pid
+    Prep starts non-decreasing; in hold mode any arrival order is in the domain
     (durations are free: a slice with end <= start is simply never in flight)"""
     last = {}
     for s in spec:
@@ -396,7 +426,7 @@ def in_domain(spec):
         if spec_is_prep(s):
             if s.get("dur") is None:
                 return False
-            if s["pid"] in last and s["ts"] < last[s["pid"]]:
+            if si and s["pid"] in last and s["ts"] < last[s["pid"]]:
                 return False
             last[s["pid"]] = s["ts"]
     return True
@@ -473,9 +503,10 @@ def oracle_e2e(sc, keep, res):
     n_prep = sum(1 for evs in sc["ranks"] for x in evs if x["kind"] == "prep")
     if n_prep and not res["stage_called"]:
         bad.append(("queueing_counter_stage_not_run", {}))
-    # hypothesis of the theorems: per pid, Prep slices reach the stage start-sorted
+    # hypothesis of the theorems for the default pipeline: per pid, Prep slices reach the stage start-sorted (with
+    # -M no stage sorts before this one and the theorems for that mode have no such hypothesis)
     last = {}
-    for s in res["stage_in"]:
+    for s in ([] if "-M" in sc.get("opts", []) else res["stage_in"]):
         if spec_is_prep(s):
             if s["pid"] in last and s["ts"] < last[s["pid"]]:
                 bad.append(("stage_input_not_start_sorted", {"pid": s["pid"], "ts": s["ts"], "prev": last[s["pid"]]}))
@@ -637,7 +668,12 @@ def gen_scenario(r, small=False):
         if not evs:
             evs.append({"kind": "host", "name": "hostfn", "s": float(base - 50), "e": float(base - 48), "tid": 7})
         ranks.append(evs)
-    return {"ranks": ranks}
+    sc = {"ranks": ranks}
+    if r.random() < 0.3:
+        # -M / --no_mp_sync: the clock-alignment stage (and its sort by ts) is not registered; the records of a file
+        # reach the prep-queue counter in file order, which is shuffled above
+        sc["opts"] = ["-M"]
+    return sc
 
 
 # ================================================================ Coq encoding
@@ -684,8 +720,8 @@ class Terms:
         return f"(E {self.s(s['ph'])} {self.s(s['name'])} {enc.Z(s['pid'])} {enc.Q(s['ts'])} {dur} " \
                f"{enc.Z(uid)} {enc.Z(s.get('job', J_FLEX))})"
 
-    def stage_case(self, keep, spec):
-        return enc.P(enc.B(keep), enc.L([self.ev(s, i) for i, s in enumerate(spec)]))
+    def stage_case(self, si, keep, spec):
+        return enc.P(enc.P(enc.B(si), enc.B(keep)), enc.L([self.ev(s, i) for i, s in enumerate(spec)]))
 
     def out(self, o):
         if len(o) == 2 and o[0] == "P" and isinstance(o[1], int):
@@ -703,8 +739,8 @@ class Terms:
         return f"(VL [(VL {per}); (VL {enc.L([self.out(o) for o in out[1]])})])"
 
 
-def coq_uq_case(s, e, q):
-    return enc.P(enc.P(enc.Q(s), enc.Q(e)), enc.L([enc.P(enc.Q(t), enc.Z(c)) for t, c in q]))
+def coq_uq_case(si, s, e, q):
+    return enc.P(enc.P(enc.B(si), enc.P(enc.Q(s), enc.Q(e))), enc.L([enc.P(enc.Q(t), enc.Z(c)) for t, c in q]))
 
 
 def touching(spec):
@@ -733,11 +769,11 @@ def load_corpus():
 
 
 # ================================================================ the check
-def stage_fail(keep, spec, out):
+def stage_fail(si, keep, spec, out):
     bad = oracle_stage(keep, spec, out)
     if not bad:
         return None
-    f = fail_rec("stage", {"keep_prep": keep, "events": spec}, bad,
+    f = fail_rec("stage", {"sorted_input": si, "keep_prep": keep, "events": spec}, bad,
                  "per pid: samples strictly increasing in time, value = #{Prep: start <= t < end}, sample at every "
                  "change, last sample 0; Prep slices passed on iff keep_prep; everything else passed on unchanged",
                  {"symptoms": [[k, fa] for k, fa in bad][:4],
@@ -747,12 +783,13 @@ def stage_fail(keep, spec, out):
 
 def shrink_stage(f):
     keep, spec = f["input"]["keep_prep"], list(f["input"]["events"])
+    si = f["input"].get("sorted_input", True)
     want = f["signature"]["kind"]
 
     def still(sp):
-        if not in_domain(sp):
+        if not in_domain(si, sp):
             return None
-        g = stage_fail(keep, sp, run_stage_impl(keep, sp))
+        g = stage_fail(si, keep, sp, run_stage_impl(si, keep, sp))
         if g and g["signature"]["kind"] == want:
             return g
         return None
@@ -776,7 +813,7 @@ def e2e_fail(sc, keep, res):
     preps, samples = export_views(res["export"] or [])
     return fail_rec("e2e", {"keep_prep": keep, "scenario": sc,
                             "argv": ["-i", "<rank files>", "-o", "out.json", "--freq", "1024"]
-                            + (["--keep_prep"] if keep else [])}, bad,
+                            + (["--keep_prep"] if keep else []) + list(sc.get("opts", []))}, bad,
                     "exported ConcurrentPreps series per rank equals the number of in-flight Prep slices; Prep slices "
                     "exported iff --keep_prep",
                     {"symptoms": [[k, fa] for k, fa in bad][:4],
